@@ -139,6 +139,57 @@ def p21_to_inst(d, st=None):
     return dict(id=d["id"], ty="?" + p21.render_instance(d), v=0, refs=[], st=s)
 
 
+def _gen_value(v, refs):
+    """normalised text of a parsed Part 21 value with references replaced by '#' (collected, in order, in refs)"""
+    t = v[0]
+    if t == "null":
+        return "$"
+    if t == "derived":
+        return "*"
+    if t == "int":
+        return str(int(v[1]))
+    if t == "real":
+        return repr(float(v[1]))
+    if t == "str":
+        return "'" + v[1] + "'"
+    if t == "bin":
+        return '"' + v[1].upper() + '"'
+    if t == "enum":
+        return "." + v[1].upper() + "."
+    if t == "ref":
+        refs.append(v[1])
+        return "#"
+    if t == "typed":
+        return "%s(%s)" % (v[1].upper(), _gen_value(v[2], refs))
+    if t == "list":
+        return "(" + ",".join(_gen_value(x, refs) for x in v[1]) + ")"
+    return "?%r" % (v,)
+
+
+def generic_inst(d, st=None):
+    """any p21 instance -> abstract instance of spec/Session.tla: ty = its keyword(s), v = its parameter text with
+    references blanked, refs = the references in order of appearance"""
+    refs = []
+    v = ";".join("%s(%s)" % (kw, ",".join(_gen_value(x, refs) for x in ps)) for kw, ps in d["parts"])
+    return dict(id=d["id"], ty="+".join(kw for kw, _ in d["parts"]), v=v, refs=refs, st=st if st is not None else (d.get("state") or "C"))
+
+
+def project_generic(text_or_path, states=None, is_text=False):
+    try:
+        d = p21.parse(text_or_path if is_text else open(text_or_path, errors="replace").read())
+    except (p21.P21Error, OSError) as ex:
+        return [dict(id=0, ty="?unparsable output: %s" % ex, v="", refs=[], st="?")]
+    pop = []
+    for k, x in enumerate(d["data"]):
+        st = None
+        if states is not None:
+            st = LETTER.get(states[k][1], "?") if k < len(states) and states[k][0] == x["id"] else "?"
+        pop.append(generic_inst(x, st))
+    if states is not None and len(states) != len(pop):
+        pop.append(dict(id=0, ty="?manager holds %d instances, file %d" % (len(states), len(pop)), v="", refs=[], st="?"))
+    return pop
+
+
 def project(path, states=None):
     """Written exchange/working file -> abstract population.  states: list of [id, state] from the driver
     (manager order) to attach states to an exchange file's instances."""
